@@ -147,7 +147,12 @@ use core::marker::PhantomData;
 use core::mem;
 use core::ops::Deref;
 use core::ptr;
+#[cfg(not(arc_swap_verif))]
 use core::sync::atomic::{AtomicPtr, Ordering};
+#[cfg(arc_swap_verif)]
+use core::sync::atomic::Ordering;
+#[cfg(arc_swap_verif)]
+use verif_rt::atomic::AtomicPtr;
 
 use alloc::sync::Arc;
 
